@@ -976,6 +976,14 @@ def a_persist(lib, ins, p):
 Op("persist", 1, ["frame", "series"], lambda rng, ins: {}, a_persist, weight=0.25, tags=["cut"], src="{0}.persist()")
 
 
+def a_optimize_mid(lib, ins, p):
+    # an already optimized (possibly fused) collection used as an operand of further operations
+    return ins[0] if lib == "pd" else ins[0].optimize(fuse=p.get("fuse", True))
+
+
+Op("optimize_mid", 1, ["frame", "series"], lambda rng, ins: {"fuse": rng.random() < 0.8}, a_optimize_mid, weight=0.3, tags=["cut", "preoptimized"], src="{0}.optimize(fuse={fuse})")
+
+
 # ---------------------------------------------------------------------------------------------
 # profiles: op-weight multipliers by tag
 # ---------------------------------------------------------------------------------------------
@@ -984,7 +992,7 @@ PROFILES = {
     "default": {},
     "projection": {"proj": 3.0, "rename": 2.5, "assign": 1.5, "merge": 1.5, "groupby": 1.5, "sort": 1.2, "concat": 1.5, "cumulative": 1.2, "overlap": 1.2},
     "filter": {"filter": 3.0, "merge": 1.5, "sort": 1.5, "shuffle": 1.3, "repartition": 1.5, "index": 1.5},
-    "blockwise": {"elemwise": 3.0, "assign": 2.5, "filter": 2.0, "proj": 2.0, "align": 2.0, "rename": 1.5, "udf": 2.0, "shuffle": 0.4, "reduction": 0.5, "merge": 0.5},
+    "blockwise": {"elemwise": 3.0, "assign": 2.5, "filter": 2.0, "proj": 2.0, "align": 2.0, "rename": 1.5, "udf": 2.0, "shuffle": 0.4, "reduction": 0.5, "merge": 0.5, "preoptimized": 4.0},
     "structure": {"sort": 2.5, "shuffle": 1.5, "repartition": 2.5, "index": 2.5, "concat": 2.0, "merge": 1.5, "head": 2.0, "cumulative": 1.5},
     "planner_state": {"sort": 4.0, "repartition": 2.0, "merge": 1.5, "groupby": 1.0},
     "noshuffle": {"shuffle": 0.0, "sort": 0.0, "merge": 0.3, "groupby": 0.5},
